@@ -6,6 +6,7 @@ import (
 	"fmt"
 	"math"
 	"sort"
+	"strings"
 
 	"github.com/6tail/lunar-go/ShouXingUtil"
 	"github.com/6tail/lunar-go/calendar"
@@ -179,6 +180,29 @@ func c03Table(w *W, y int) {
 	}
 }
 
+// c03TermDigest: everything a Lunar reports about solar terms, rendered.
+func c03TermDigest(l *calendar.Lunar) string {
+	jq := func(j *calendar.JieQi) string {
+		if j == nil {
+			return "nil"
+		}
+		return j.GetName() + "@" + j.GetSolar().ToYmdHms()
+	}
+	parts := []string{"GetPrevJieQi=" + jq(l.GetPrevJieQi()), "GetNextJieQi=" + jq(l.GetNextJieQi()), "GetPrevJie=" + jq(l.GetPrevJie()), "GetNextJie=" + jq(l.GetNextJie()),
+		"GetPrevQi=" + jq(l.GetPrevQi()), "GetNextQi=" + jq(l.GetNextQi()), "GetPrevJieQiByWholeDay=" + jq(l.GetPrevJieQiByWholeDay(true)), "GetNextJieQiByWholeDay=" + jq(l.GetNextJieQiByWholeDay(true)),
+		"GetPrevJieByWholeDay=" + jq(l.GetPrevJieByWholeDay(true)), "GetNextQiByWholeDay=" + jq(l.GetNextQiByWholeDay(true)), "GetCurrentJieQi=" + jq(l.GetCurrentJieQi()),
+		"GetJieQi=" + l.GetJieQi(), "GetJie=" + l.GetJie(), "GetQi=" + l.GetQi(), "GetJieQiList=" + strings.Join(listStrings(l.GetJieQiList()), ",")}
+	tbl := l.GetJieQiTable()
+	for _, k := range termKeys31 {
+		if s := tbl[k]; s != nil {
+			parts = append(parts, k+"="+s.ToYmdHms())
+		} else {
+			parts = append(parts, k+"=nil")
+		}
+	}
+	return strings.Join(parts, ";")
+}
+
 type termEntry struct {
 	secs int64
 	day  int // JDN
@@ -221,6 +245,20 @@ func c03Lookup(w *W, y int) {
 		w.Cur("C03 lookup " + key)
 		distract(q, qi)
 		l := solarOf(q).GetLunar()
+		if l.GetYear() != q.Y || l.GetMonth() < 0 || qi%5 == 0 {
+			// the same moment built from the lunar side answers the same way (always for days whose lunar year is not the
+			// civil year, and in leap months): judged below in place of the civil-side object on alternate queries
+			var l2 *calendar.Lunar
+			if pv := Call(func() { l2 = calendar.NewLunar(l.GetYear(), l.GetMonth(), l.GetDay(), q.H, q.Mi, q.S) }); pv != nil {
+				w.Violatef("lookup", key+"/lunar-route", "NewLunar(%d,%d,%d,..) for %s panicked: %v", l.GetYear(), l.GetMonth(), l.GetDay(), key, pv)
+			} else if stampOf(l2.GetSolar()) == q {
+				if a, b := c03TermDigest(l), c03TermDigest(l2); a != b {
+					w.Violatef("lookup", key+"/lunar-route", "term look-ups at %s differ between Solar.GetLunar() and NewLunar(%d,%d,%d,..): %s", key, l.GetYear(), l.GetMonth(), l.GetDay(), diffDigests(a, b))
+				}
+				w.Eval(1)
+				w.Count("lunar-route-queries", 1)
+			}
+		}
 		qs := q.Secs()
 		qd := ref.JDN(q.Y, q.M, q.D)
 		check := func(name string, got *calendar.JieQi, forward bool, parity int, whole bool) {
